@@ -22,7 +22,7 @@ func c04(c *Ctx) {
 	r.Floor("R3.refused-put-noop", 3)
 	r.Floor("R2.get-reads-db", 3)
 	r.Floor("R3.accepted-put-writes", 2)
-	r.Floor("R4.reserved-key", 1)
+	r.Floor("R4.reserved-key", 4)
 	r.Floor("R5.routing", 2)
 
 	// ---- R1: every pebble buffer source in the module
@@ -256,6 +256,42 @@ func c04(c *Ctx) {
 		}
 	}
 
+	// ---- R4b: the only keys the store ever writes are item keys (the derived key Put was given /
+	// keys met while iterating) and the one reserved size key, which lies at distance 0 = the node's
+	// own id (the id the property exempts). Any other fixed key is a record living inside the
+	// content keyspace: Get of the id that maps to it returns bytes nobody put under that id.
+	{
+		nw := 0
+		for _, fn := range p.ModuleFuncs() {
+			if fn.Pkg == nil || fn.Pkg != m.ctor.Pkg {
+				if fn.Parent() == nil || fn.Parent().Pkg != m.ctor.Pkg {
+					continue
+				}
+			}
+			core.Calls(fn, func(ci ssa.CallInstruction) {
+				id := core.CalleeID(ci)
+				if id != batchSet && id != pebbleDBSet {
+					return
+				}
+				key := ci.Common().Args[1]
+				nw++
+				okKey := isSizeKey(key) || isIterKey(key)
+				if !okKey {
+					if call, ok := key.(*ssa.Call); ok && core.StaticCalleeFn(call) == m.keyFn {
+						okKey = true
+					}
+				}
+				if !okKey {
+					// a key handed in by a caller that derived it
+					if pa, ok := core.Unwrap(key).(*ssa.Parameter); ok && pa.Parent() == fn && fn != m.put {
+						okKey = true
+					}
+				}
+				r.Check(okKey, "R4.reserved-key", fmt.Sprintf("%s writes-key #%d", core.FuncName(fn), nw), p.Pos(ci.Pos()),
+					"written under a derived item key or the reserved size key", "the store writes a record under a fixed key that is neither an item key nor the size record: it sits inside the content keyspace, and Get of the content id that maps to it returns bytes that were never put under that id")
+			})
+		}
+	}
 	// ---- R4 reserved key
 	for i, ci := range core.CallsTo(m.prune, batchDelete) {
 		notReserved := core.AnyFact(func(f core.Fact) bool {
